@@ -101,6 +101,18 @@ func (k akey) goValue() any {
 		return uint64(k.Num)
 	case "int8":
 		return int8(k.Num)
+	case "int16":
+		return int16(k.Num)
+	case "int32":
+		return int32(k.Num)
+	case "uint":
+		return uint(k.Num)
+	case "uint8":
+		return uint8(k.Num)
+	case "uint16":
+		return uint16(k.Num)
+	case "uint32":
+		return uint32(k.Num)
 	case "float":
 		return float64(k.Num) + 0.5
 	case "bool":
@@ -124,6 +136,8 @@ func (k akey) term() string {
 		return fmt.Sprintf("(GKInt 2 %s)", cZ(k.Num))
 	case "int8":
 		return fmt.Sprintf("(GKInt 3 %s)", cZ(k.Num))
+	case "int16", "int32", "uint", "uint8", "uint16", "uint32":
+		return fmt.Sprintf("(GKInt %d %s)", map[string]int{"int16": 4, "int32": 5, "uint": 6, "uint8": 7, "uint16": 8, "uint32": 9}[k.Kind], cZ(k.Num))
 	}
 	return "GKOther"
 }
@@ -304,6 +318,18 @@ func contentTermCanon(fmtIdx int, c *signature.EnvelopeContent) string {
 		case int:
 			k = akey{Kind: "int64", Num: int64(x)}
 		case int8:
+			k = akey{Kind: "int64", Num: int64(x)}
+		case int16:
+			k = akey{Kind: "int64", Num: int64(x)}
+		case int32:
+			k = akey{Kind: "int64", Num: int64(x)}
+		case uint:
+			k = akey{Kind: "int64", Num: int64(x)}
+		case uint8:
+			k = akey{Kind: "int64", Num: int64(x)}
+		case uint16:
+			k = akey{Kind: "int64", Num: int64(x)}
+		case uint32:
 			k = akey{Kind: "int64", Num: int64(x)}
 		case uint64:
 			k = akey{Kind: "int64", Num: int64(x)}
@@ -653,7 +679,7 @@ func signChanges() []change {
 	}
 	A("attr-key-expiry-crit", false, 0, aattr{akey{Kind: "text", Text: kExp}, true, "2099-01-01T00:00:00Z"})
 	A("attr-key-case-variant", false, 0, aattr{akey{Kind: "text", Text: "ALG"}, false, "x"})
-	for _, kind := range []string{"int", "int64", "uint64", "int8"} {
+	for _, kind := range []string{"int", "int64", "uint64", "int8", "int16", "int32", "uint", "uint8", "uint16", "uint32"} {
 		for _, n := range []int64{1, 2, 3} {
 			A(fmt.Sprintf("attr-key-%s(%d)", kind, n), false, 1, aattr{akey{Kind: kind, Num: n}, false, "v"})
 		}
